@@ -401,6 +401,11 @@ func (vc *VC) callOrdinal(fr *Frame, site ssa.Instruction, short string) int {
 			for _, in := range b.Instrs {
 				var cc *ssa.CallCommon
 				switch t := in.(type) {
+				case *ssa.TypeAssert:
+					// type assertions can carry program-point clauses as the pseudo-call `typeassert#k`
+					n++
+					by["typeassert"] = append(by["typeassert"], cs{in, t.Pos(), n})
+					continue
 				case *ssa.Call:
 					cc = &t.Call
 				case *ssa.Defer:
